@@ -43,6 +43,70 @@ def reset_process_state() -> None:
         pass
 
 
+def make_processes(specs):
+    """A real Processes object with helper programs started the production way (Processes.start -> _start), their
+    Popen replaced by pipe-backed stand-ins.  specs: [(name, 'json' | 'text', api version 4 | 6)].  No private name of
+    Processes is touched, so a renaming inside it does not break the harness."""
+    from exabgp.environment import getenv
+    from exabgp.reactor.api import processes as proc_mod
+    from vt.world import FakeChild
+
+    real = proc_mod.subprocess
+
+    class _Subprocess:
+        PIPE = -1
+        CalledProcessError = real.CalledProcessError
+        TimeoutExpired = real.TimeoutExpired
+
+        @staticmethod
+        def Popen(run, **kw):
+            return FakeChild('helper')
+
+    class _Loop:
+        def add_reader(self, *a):
+            pass
+
+        def remove_reader(self, *a):
+            return True
+
+    env = getenv()
+    saved_version = env.api.version
+    proc_mod.subprocess = _Subprocess
+    try:
+        procs = proc_mod.Processes()
+        procs.setup_async_readers(_Loop())
+        # the process sections as the configuration parser builds them
+        text = ''.join(f'process {name} {{ run /bin/cat; encoder {enc}; }}\n' for name, enc, _ in specs)
+        parsed, ok = parse_config(text + 'neighbor 127.0.0.2 { router-id 1.2.3.4; local-address 127.0.0.1; local-as 65001; peer-as 65002; }\n')
+        if not ok:
+            raise RuntimeError(f'process sections refused: {getattr(parsed, "error", "?")}')
+        cfg = {}
+        for version in sorted({v for _, _, v in specs}):
+            env.api.version = version
+            for name, enc, v in specs:
+                if v == version:
+                    cfg[name] = parsed.processes[name]
+            procs.start(dict(cfg))
+    finally:
+        proc_mod.subprocess = real
+        env.api.version = saved_version
+    return procs
+
+
+def drop_pending_writes(procs) -> int:
+    """Forget what Processes.write() queued for the helper programs (async mode); returns how many records there were.
+    The queue is found by its shape ({process: deque of bytes}), whatever it is called."""
+    import collections
+
+    n = 0
+    for v in vars(procs).values():
+        if isinstance(v, dict) and v and all(isinstance(x, collections.deque) for x in v.values()):
+            for q in v.values():
+                n += len(q)
+                q.clear()
+    return n
+
+
 def parse_config(text: str):
     """Configuration from text; returns (cfg, ok)."""
     from exabgp.configuration.configuration import Configuration
